@@ -280,10 +280,15 @@ pub struct PoolOpts {
     pub deadline: Instant,
     /// per-cell wall limit; a cell exceeding it is killed and reported as machinery error
     pub cell_limit: Duration,
+    /// alternative worker binary (e.g. the overflow-checked build)
+    pub exe: Option<String>,
 }
 
-fn spawn_worker(engine: &str) -> std::io::Result<Child> {
-    let exe = std::env::current_exe()?;
+fn spawn_worker(engine: &str, exe: &Option<String>) -> std::io::Result<Child> {
+    let exe = match exe {
+        Some(p) => std::path::PathBuf::from(p),
+        None => std::env::current_exe()?,
+    };
     Command::new(exe)
         .arg("worker")
         .arg(engine)
@@ -309,6 +314,7 @@ pub fn run_cells(engine: &str, cells: Vec<Value>, opts: &PoolOpts) -> Vec<Option
         let engine = engine.to_string();
         let deadline = opts.deadline;
         let cell_limit = opts.cell_limit;
+        let exe = opts.exe.clone();
         handles.push(std::thread::spawn(move || {
             let mut child: Option<(Child, BufReader<std::process::ChildStdout>)> = None;
             loop {
@@ -320,7 +326,7 @@ pub fn run_cells(engine: &str, cells: Vec<Value>, opts: &PoolOpts) -> Vec<Option
                     break;
                 }
                 if child.is_none() {
-                    match spawn_worker(&engine) {
+                    match spawn_worker(&engine, &exe) {
                         Ok(mut c) => {
                             let out = BufReader::new(c.stdout.take().unwrap());
                             child = Some((c, out));
